@@ -11,7 +11,9 @@ package props
 import (
 	"context"
 	"fmt"
+	"runtime"
 	"strings"
+	"sync"
 	"testing"
 	"testing/synctest"
 	"time"
@@ -32,7 +34,11 @@ func TestC04Bulk(t *testing.T) {
 		batches := rapid.SampledFrom([]int{1, 3, 10}).Draw(t, "putBatches")
 		stride := rapid.SampledFrom([]int{0, 0, 1000, 4096}).Draw(t, "commitStride") // 0 = one commit at the end
 		lag := rapid.IntRange(0, 9).Draw(t, "slowestBacklog")
-		trace := []string{fmt.Sprintf("values=%d cooldown=%v consumers=%d mode=%s putBatches=%d commitStride=%d slowestBacklog=%d", n, cd, nCons, mode, batches, stride, lag)}
+		// the cleaner may be slow (it yields before answering) and the consumers may run side by side: commits then
+		// arrive while a cleanup pass is inside the cleaner callback
+		cleanerYield := rapid.SampledFrom([]int{0, 0, 2, 10, 40}).Draw(t, "cleanerYield")
+		parallel := rapid.Bool().Draw(t, "parallelConsumers")
+		trace := []string{fmt.Sprintf("values=%d cooldown=%v consumers=%d mode=%s putBatches=%d commitStride=%d slowestBacklog=%d cleanerYield=%d parallel=%v", n, cd, nCons, mode, batches, stride, lag, cleanerYield, parallel)}
 		vkit.CaseStart(func() string { return strings.Join(trace, " ; ") })
 		rapid.SyncTest(t, func(t *rapid.T) {
 			b := new(bigbuff.Buffer)
@@ -40,6 +46,15 @@ func TestC04Bulk(t *testing.T) {
 			cleaner := bigbuff.Cleaner(bigbuff.DefaultCleaner)
 			if mode == "fixed-burst" {
 				cleaner = bigbuff.FixedBufferCleaner(fixMax, fixTgt, nil)
+			}
+			if cleanerYield > 0 {
+				inner := cleaner
+				cleaner = func(size int, offsets []int) int {
+					for i := 0; i < cleanerYield; i++ {
+						runtime.Gosched()
+					}
+					return inner(size, offsets)
+				}
 			}
 			if err := b.SetCleanerConfig(bigbuff.CleanerConfig{Cleaner: cleaner, Cooldown: cd}); err != nil {
 				t.Fatalf("harness: %v", err)
@@ -80,7 +95,16 @@ func TestC04Bulk(t *testing.T) {
 			switch mode {
 			case "commit-all", "close-slowest":
 				// everybody reads everything; the last consumer stays `lag` values behind (uncommitted beyond that)
-				for ci, c := range cons {
+				var emu sync.Mutex
+				var firstSig, firstMsg string
+				note := func(sig, f string, a ...any) {
+					emu.Lock()
+					if firstSig == "" {
+						firstSig, firstMsg = sig, fmt.Sprintf(f, a...)
+					}
+					emu.Unlock()
+				}
+				read := func(ci int, c bigbuff.Consumer) {
 					upto := n
 					if ci == len(cons)-1 {
 						upto = n - lag
@@ -88,19 +112,36 @@ func TestC04Bulk(t *testing.T) {
 					for i := 0; i < upto; i++ {
 						v, err := c.Get(ctx)
 						if err != nil || v != any(i) {
-							fail("C01+C03/get-value", "consumer %d: Get #%d returned (%v,%v)", ci, i, v, err)
+							note("C01+C03/get-value", "consumer %d: Get #%d returned (%v,%v)", ci, i, v, err)
+							return
 						}
 						if stride > 0 && (i+1)%stride == 0 {
 							if err := c.Commit(); err != nil {
-								fail("C02/commit-error", "Commit failed: %v", err)
+								note("C02/commit-error", "Commit failed: %v", err)
+								return
 							}
 						}
 					}
 					if upto > 0 && (stride == 0 || upto%stride != 0) {
 						if err := c.Commit(); err != nil {
-							fail("C02/commit-error", "final Commit failed: %v", err)
+							note("C02/commit-error", "final Commit failed: %v", err)
 						}
 					}
+				}
+				if parallel {
+					var wg sync.WaitGroup
+					for ci, c := range cons {
+						wg.Add(1)
+						go func() { defer wg.Done(); read(ci, c) }()
+					}
+					wg.Wait()
+				} else {
+					for ci, c := range cons {
+						read(ci, c)
+					}
+				}
+				if firstSig != "" {
+					fail(firstSig, "%s", firstMsg)
 				}
 				want = lag
 				if mode == "close-slowest" && nCons >= 2 {
